@@ -511,3 +511,40 @@ Definition observe (s : st) : obs :=
   mkObs (r_ok s) (r_blk s) (r_rd s) (r_drop s) (r_dblk s)
         (match clo s with CDone => true | _ => false end) (crashed s)
         (lockq s + hts (hold s) + match hold s with HLock => 1 | _ => 0 end + reqs s) (rdwait s).
+
+(* ---- witness schedules (replayed on the real DB by harness/deadlock.go where a hook exists) ---- *)
+Definition cfgW : cfg := mkCfg 2 6 1 1 2 2.
+
+(* Close runs from "writes closer signalled" to the exit of the writer goroutine *)
+Definition close_to_writer_exit : list lab :=
+  [C_gc; C_sig; W_sig; W_default; W_final; J_done; C_waitw].
+(* ... and from close(writeCh) to its return (empty memtable) *)
+Definition close_rest : list lab :=
+  [C_closech; C_mt; C_stopf; F_exit; C_waitf; K0_exit; KO_exit; C_waitc; C_orc].
+
+(* F14, hang flavour: a commit passes the blockWrites check; Close starts, the writer goroutine
+   takes its last look at writeCh and exits; the commit sends (buffered, nobody will receive);
+   Close returns nil; req.Wait() blocks for ever.  Hooks: sendToWriteCh.beforeSend parks the
+   commit, close.beforeCloseWriteCh parks Close after the writer has exited. *)
+Definition sched_f14_hang : list lab :=
+  [E_commit; L_acq; H_ts; H_check; E_close] ++ close_to_writer_exit ++ [H_send] ++ close_rest.
+
+(* F14, panic flavour: the send happens after close(db.writeCh) *)
+Definition sched_f14_panic : list lab :=
+  [E_commit; L_acq; H_ts; H_check; E_close] ++ close_to_writer_exit ++ close_rest ++ [H_send].
+
+(* NewTransaction racing Close: a commit holds a timestamp (txnMark.Begin done), a NewTransaction
+   waits for it in readTs; Close runs to the end (orc.Stop() stops the watermark goroutine);
+   the commit then fails its blockWrites check and calls doneCommit, which nobody processes. *)
+Definition sched_newtxn_hang : list lab :=
+  [E_commit; L_acq; H_ts; E_read; E_close] ++ close_to_writer_exit ++ close_rest ++ [H_check].
+
+(* without compactors (NumCompactors = 0 is accepted by Open) a level-0 stall is permanent *)
+Definition cfg0 : cfg := mkCfg 2 6 1 0 1 0.
+Definition one_commit : list lab := [E_commit; L_acq; H_ts; H_check; H_send; W_recv; W_push].
+Definition sched_no_compactors : list lab :=
+  one_commit ++ [J_write true; J_done]                       (* memtable 1 full *)
+  ++ one_commit ++ [J_rotate; J_write true; J_done; F_take; F_add]   (* L0 = 1 = stall limit *)
+  ++ one_commit ++ [J_rotate; J_write true; J_done; F_take]  (* flusher stalled on L0 *)
+  ++ one_commit ++ [J_rotate; J_write true; J_done]          (* flushChan full *)
+  ++ one_commit.                                             (* memtable full, no room: stuck *)
